@@ -10,6 +10,8 @@ CONSTANTS
   Horizon = 100000
   Dev = {}
   SharedW = {}
+  Directors = {}
+  Spare = {}
 CONSTRAINT Mark
 POSTCONDITION Post
 CHECK_DEADLOCK FALSE
